@@ -1,5 +1,5 @@
 (* C05 - entity state = last-writer-wins replay of creation and property packets.  Statements only. *)
-From RU Require Import Base Types Defs BitReader World WireSpec LwwProofs WorldProofs CreateProofs PlayerProofs.
+From RU Require Import Base Types Defs BitReader World Run WireSpec FrameProofs LwwProofs WorldProofs CreateProofs PlayerProofs StreamProofs.
 From Coq Require Import Lia.
 Open Scope N_scope.
 
@@ -75,6 +75,16 @@ Theorem C05_history_refines_spec : forall St w pkts evs, history St w pkts evs -
   ids_ok (play_packets St w pkts) /\ same (abs (play_packets St w pkts)) (fold_left spec_step evs s).
 Proof. exact history_refines_spec. Qed.
 Print Assumptions C05_history_refines_spec.
+(* from the BYTES of the packet stream: a stream that is the concatenation of well-formed frames, whose type ids the dialect's table maps
+   to the four packet kinds, is played by the whole lenient run (framing + dispatch + step) into a table that refines the fold of the
+   events the packets denote; the run reports no error *)
+Theorem C05_stream_refines_spec : forall St, s_game St <> Wowp -> forall ps cps evs,
+  Forall wf_packet ps -> classified St ps cps -> history St empty_world cps evs ->
+  snd (Run.run_lenient St (enc_all ps)) = None /\
+  ids_ok (fst (Run.run_lenient St (enc_all ps))) /\
+  same (abs (fst (Run.run_lenient St (enc_all ps)))) (fold_left spec_step evs spec_init).
+Proof. exact stream_refines_spec. Qed.
+Print Assumptions C05_stream_refines_spec.
 (* ... and the base-player packet makes its id the recording player (known or new id) *)
 Theorem C05_base_player_sets_player : forall St w s id ty e m vs,
   s_game St <> Wot -> (- 2 ^ 31 <= id < 2 ^ 31)%Z -> length ty = 2%nat -> N.of_nat (length (enc_props (e_base m) vs)) < 2 ^ 32 ->
@@ -115,4 +125,34 @@ Proof.
     apply (rp_create ex_St _ 7 1 ex_pad [] [(0%N, ex_hp, VInt 2)] "Ship" ex_model); create_side.
     apply rp_nil.
   - vm_compute. repeat split; reflexivity.
+Qed.
+
+(* non-vacuity of the stream theorem: the same two-property definition set with a packet table; three framed packets (create 7,
+   update 7.hp, update of the unknown id 9); the hypotheses hold, and the whole run from bytes gives hp = 300 *)
+Definition ex_St2 : setup :=
+  {| s_game := Wows; s_table := [(0%N, BasePlayerCreate); (5%N, EntityCreate); (7%N, EntityProperty)]; s_names := ["Ship"];
+     s_models := [("Ship", ex_model)]; s_msubs := []; s_mcounts := []; s_psubs := []; s_nsubs := [] |}.
+Definition ex_cps : list (pclass * bytes) :=
+  [(EntityCreate, enc_create 7 1 ex_pad [] [(0%N, ex_hp, VInt 500)]);
+   (EntityProperty, enc_update 7 0 [x2c; x01]);
+   (EntityProperty, enc_update 9 0 [x2c; x01])].
+Definition ex_time : bytes := [x00; x00; x80; x3f].
+Definition ex_ps : list packet :=
+  [{| pk_type := 5; pk_time := ex_time; pk_payload := enc_create 7 1 ex_pad [] [(0%N, ex_hp, VInt 500)] |};
+   {| pk_type := 7; pk_time := ex_time; pk_payload := enc_update 7 0 [x2c; x01] |};
+   {| pk_type := 7; pk_time := ex_time; pk_payload := enc_update 9 0 [x2c; x01] |}].
+Example C05_example_stream :
+  Forall wf_packet ex_ps /\ classified ex_St2 ex_ps ex_cps /\
+  history ex_St2 empty_world ex_cps [EvCreate 7 "Ship" [("hp", VInt 500)]; EvUpdate 7 "hp" (VInt 300)] /\
+  (match abs (fst (Run.run_lenient ex_St2 (enc_all ex_ps))) 7 with Some (ty, f) => ty = "Ship" /\ f "hp" = Some (VInt 300) | None => False end).
+Proof.
+  split; [|split; [|split]].
+  - repeat constructor; try (apply N.ltb_lt; vm_compute; reflexivity).
+  - vm_compute. repeat split; reflexivity.
+  - unfold ex_cps.
+    apply (h_create ex_St2 empty_world 7 1 ex_pad [] [(0%N, ex_hp, VInt 500)] "Ship" ex_model); create_side.
+    eapply (h_update ex_St2 _ 7 0 [x2c; x01] _ ex_model ex_hp (VInt 300) []); [> nlt | nlt | nlt | vm_compute; reflexivity | reflexivity | reflexivity | reflexivity | ].
+    apply (h_update_unknown ex_St2 _ 9 0 [x2c; x01]); [> nlt | nlt | nlt | vm_compute; reflexivity | ].
+    apply h_nil.
+  - vm_compute. split; reflexivity.
 Qed.
